@@ -857,6 +857,29 @@ def track(R, RID='C05.track'):
                          'self.%s is written on a path that a Ping/Pong/Close frame takes (%s): a control frame between the '
                          'fragments of a message changes how the rest of the message is read' % (t.attr, bad[:1]),
                          func=fi, node=n.ast)
+    # ... and the per-frame bookkeeping refuses no control frame: an unmasked Ping/Pong/Close that passed validation is legal
+    # wherever it arrives, also between the fragments of a text message whose last code point is still open
+    for fq in ('frame_parser.FrameParser.on_frame', recv + '.on_frame'):
+        fi = R.prog.funcs.get(fq)
+        if fi is None:
+            continue
+        gg = R.cfg(fq, recv)
+        rdg = ReachingDefs(gg)
+        fvar = _frame_var_in(fi)
+        T = lambda s_: '%s.opcode == Opcode.%s' % (fvar, s_)
+        for n in gg.live_nodes():
+            if not (n.kind == 'stmt' and isinstance(n.ast, ast.Raise)):
+                continue
+            bad = []
+            for l in path_conditions(R, gg, rdg, gg.entry, n):
+                if ('%s.mask' % fvar, True) in l:
+                    continue
+                if not (('%s.opcode >= 8' % fvar, False) in l or any((T(s_), True) in l for s_ in ('TEXT', 'BINARY', 'CONTINUATION'))):
+                    bad.append(sorted(x[0] for x in l if x[1])[:4])
+            R.ob(RID, 'on_frame refuses no control frame', not bad,
+                 '%s raises `%s` on a path that an unmasked Ping/Pong/Close frame takes (%s): a control frame interleaved between '
+                 'the fragments of a message fails the connection' % (fq, U(n.ast.exc)[:50] if n.ast.exc else 'raise', bad[:1]),
+                 func=fi, node=n.ast, construct='on_frame raise %s' % (U(n.ast.exc)[:50] if n.ast.exc else ''))
     # on_frame runs for every frame before it is yielded
     g = R.cfg('frame_parser.FrameParser.parse', recv)
     onf = calls_to(R, g, ['frame_parser.ClientFrameParser.on_frame', 'frame_parser.FrameParser.on_frame'])
